@@ -2,10 +2,12 @@ package checks
 
 import (
 	"encoding/json"
+	"errors"
 	"fmt"
 	"io"
 	"net/http"
 	"reflect"
+	"sort"
 	"strings"
 	"time"
 
@@ -987,6 +989,94 @@ type c04TagWriter struct {
 	tag string
 }
 
+// c04FlameResults: "its results come back unchanged, identically for plain functions and for fast-invoker
+// wrapped ones (including the built-in automatic wrapping)": handlers of every signature the framework may
+// wrap on its own, registered on a Flame whose ReturnHandler records what it is handed; the record must be
+// what calling the function directly gives (number of results, static type and value of each).
+func c04FlameResults(l *core.Local) {
+	boom := errors.New("boom")
+	handlers := map[string]interface{}{
+		"func(Context) error=nil":           func(c flamego.Context) error { return nil },
+		"func(Context) error=boom":          func(c flamego.Context) error { return boom },
+		"func() error=nil":                  func() error { return nil },
+		"func() error=boom":                 func() error { return boom },
+		"func() (int, string)":              func() (int, string) { return 418, "tea" },
+		"func(Context) (int, string)":       func(c flamego.Context) (int, string) { return 418, "tea" },
+		"func(Context) (string, error)=nil": func(c flamego.Context) (string, error) { return "s", nil },
+		"func() string":                     func() string { return "s" },
+		"func(Context) string":              func(c flamego.Context) string { return "s" },
+		"func(Context) []byte":              func(c flamego.Context) []byte { return []byte("b") },
+		"func(Context) *c04T1=nil":          func(c flamego.Context) *c04T1 { return nil },
+		"func(Context) c04I=nil":            func(c flamego.Context) c04I { return nil },
+		"func(Context) (int, error)=nil":    func(c flamego.Context) (int, error) { return 204, nil },
+		"func(Context)":                     func(c flamego.Context) {},
+		"func(ResponseWriter, *Request)":    func(w http.ResponseWriter, r *http.Request) {},
+	}
+	describe := func(vals []reflect.Value) string {
+		var parts []string
+		for _, v := range vals {
+			if !v.IsValid() {
+				parts = append(parts, "<zero reflect.Value>")
+				continue
+			}
+			parts = append(parts, fmt.Sprintf("%s=%v", v.Type(), v.Interface()))
+		}
+		return fmt.Sprintf("%d results [%s]", len(vals), strings.Join(parts, "; "))
+	}
+	names := make([]string, 0, len(handlers))
+	for n := range handlers {
+		names = append(names, n)
+	}
+	sort.Strings(names)
+	for _, style := range []string{"route", "use", "action"} {
+		for _, name := range names {
+			h := handlers[name]
+			f := flamego.NewWithLogger(io.Discard)
+			got := "ReturnHandler not called"
+			f.Map(flamego.ReturnHandler(func(c flamego.Context, vals []reflect.Value) { got = describe(vals) }))
+			switch style {
+			case "route":
+				f.Get("/t", h)
+			case "use":
+				f.Use(h)
+				f.Get("/t", func() {})
+			case "action":
+				f.Get("/t", func() {})
+				f.Action(h)
+			}
+			var ctx flamego.Context
+			f.Before(func(http.ResponseWriter, *http.Request) bool { return false })
+			var pan interface{}
+			func() {
+				defer func() { pan = recover() }()
+				f.ServeHTTP(&c01Spy{hdr: http.Header{}}, newReq("GET", "/t"))
+			}()
+			_ = ctx
+			// the same function called directly, with zero values for its parameters
+			ft := reflect.TypeOf(h)
+			args := make([]reflect.Value, ft.NumIn())
+			for i := range args {
+				args[i] = reflect.Zero(ft.In(i))
+			}
+			want := "ReturnHandler not called"
+			if ft.NumOut() > 0 {
+				want = describe(reflect.ValueOf(h).Call(args))
+			}
+			l.Evals++
+			l.Transitions++
+			l.Traces++
+			l.NonTrivial++
+			l.States++
+			if pan != nil || got != want {
+				l.Class("mismatch")
+				l.Violate("flame-results/"+style, fmt.Sprintf("handler %s registered as %s: the ReturnHandler was handed %s (panic %v), calling the function gives %s", name, style, got, pan, want), c04Case{What: "flame-results"})
+			} else {
+				l.Class("flame:results-unchanged")
+			}
+		}
+	}
+}
+
 func c04FlameRebind(l *core.Local) {
 	for _, which := range []string{"writer", "request", "both"} {
 		f := flamego.NewWithLogger(io.Discard)
@@ -1173,6 +1263,7 @@ func c04Run(r *core.Run) {
 	fl := core.NewLocal()
 	c04Flame(fl)
 	c04FlameRebind(fl)
+	c04FlameResults(fl)
 	fl.States++
 	r.Merge(fl)
 }
@@ -1244,6 +1335,10 @@ func c04Replay(raw json.RawMessage) (bool, string) {
 			}
 		}
 		return false, ""
+	case "flame-results":
+		l := core.NewLocal()
+		c04FlameResults(l)
+		return l.Classes["mismatch"] > 0, "results of handlers the framework wraps on its own differ from what the function returns"
 	case "flame-rebind":
 		l := core.NewLocal()
 		c04FlameRebind(l)
